@@ -31,6 +31,7 @@ type lgType struct {
 	size    *ast.FuncDecl
 	writeTo *ast.FuncDecl
 	readFrom *ast.FuncDecl
+	nested bool // writeTo calls the writeTo of a (non-array) struct field: its schema is a nested struct where Kafka's is flat
 	sizeWhy string // non-empty: size() could not be translated (structure and writeTo only)
 	nilFlags map[string]bool // fields compared with nil: an extra Bool field `<F>_isNil`
 }
@@ -618,6 +619,7 @@ func extractLegacy(repo, root string) error {
 		versions []int
 	}
 	var emissions []emission
+	var respEmissions []emission
 	for _, f := range pkg.Files {
 		for _, d := range f.Decls {
 			switch x := d.(type) {
@@ -725,6 +727,7 @@ func extractLegacy(repo, root string) error {
 					note(p.Names, p.Type)
 				}
 			}
+			nEm := len(emissions)
 			ast.Inspect(fd.Body, func(n ast.Node) bool {
 				switch x := n.(type) {
 				case *ast.ValueSpec:
@@ -815,6 +818,20 @@ func extractLegacy(repo, root string) error {
 				}
 				return true
 			})
+			// the response read in the same function: a local of a type that has a reader
+			if len(emissions) == nEm+1 {
+				em := emissions[nEm]
+				var names []string
+				for _, tn := range locals {
+					names = append(names, tn)
+				}
+				sort.Strings(names)
+				for _, tn := range uniq(names) {
+					if t, ok := c.types[tn]; ok && tn != em.typ && (t.readFrom != nil || strings.Contains(tn, "Response")) {
+						respEmissions = append(respEmissions, emission{tn, em.key, em.versions})
+					}
+				}
+			}
 		}
 	}
 	sort.Strings(emitted)
@@ -1074,6 +1091,48 @@ theorem legacy_frame_eq_spec (h : requestHeader) (body : Bytes)
 			gl = append(gl, fmt.Sprintf("(%q, %d, %d)", e.typ, e.key, k))
 		}
 	}
+	// responses: the type read in the function that sends (key, versions)
+	sort.Slice(respEmissions, func(i, j int) bool {
+		if respEmissions[i].typ != respEmissions[j].typ {
+			return respEmissions[i].typ < respEmissions[j].typ
+		}
+		return respEmissions[i].key < respEmissions[j].key
+	})
+	var rgl, rskip []string
+	for _, e := range respEmissions {
+		if !schemaOK[e.typ] || !readerOK[e.typ] || c.types[e.typ].nested {
+			rskip = append(rskip, fmt.Sprintf("%q", e.typ))
+			continue
+		}
+		for _, k := range e.versions {
+			id := fmt.Sprintf("resp %s.v%d", e.typ, k)
+			if seenE[id] {
+				continue
+			}
+			seenE[id] = true
+			hv, simpv, zero := "", "", e.typ+".zero"
+			if c.versioned[e.typ] {
+				hv = fmt.Sprintf(" (hv : t.v = %d)", k)
+				simpv = ", hv"
+				zero = fmt.Sprintf("(%s.zero %d)", e.typ, k)
+			}
+			fmt.Fprintf(&gb, "/-- %s read as the response of api key %d version %d: the writer's schema is the golden response schema (up to string\nnullability), its bytes are the reference encoding, and the reader Conn uses gives the value back from exactly those bytes -/\n", e.typ, e.key, k)
+			fmt.Fprintf(&gb, "theorem %s.legacy_read_spec_v%d (t : %s)%s (hwt : wt (%s.ty t) (%s.val t) = true) (hok : %s.Ok t) (rest : Bytes) :\n    ∃ g, Spec.goldenTy %d false %d (%s.ty t) = some g ∧\n      %s.readFrom %s (Spec.encode (Spec.denull g) (%s.val t) ++ rest) = some (t, rest) := by\n",
+				e.typ, k, e.typ, hv, e.typ, e.typ, e.typ, e.key, k, e.typ, e.typ, zero, e.typ)
+			fmt.Fprintf(&gb, "  have h1 : ∃ g, Spec.goldenTy %d false %d (%s.ty t) = some g ∧ %s.writeTo t = Spec.encode (Spec.denull g) (%s.val t) := by\n", e.key, k, e.typ, e.typ, e.typ)
+			fmt.Fprintf(&gb, "    apply eq_spec_of (ty := %s.ty t) (v := %s.val t) ?_ (%s.legacy_model t) ?_ hwt\n", e.typ, e.typ, e.typ)
+			fmt.Fprintf(&gb, "    · simp only [%s.ty%s]; decide\n    · simp only [%s.ty%s]; decide\n", e.typ, simpv, e.typ, simpv)
+			fmt.Fprintf(&gb, "  obtain ⟨g, hg, hw⟩ := h1\n  refine ⟨g, hg, ?_⟩\n  rw [← hw]\n")
+			if c.versioned[e.typ] {
+				fmt.Fprintf(&gb, "  have := %s.read_write t hok rest\n  rwa [hv] at this\n\n", e.typ)
+			} else {
+				fmt.Fprintf(&gb, "  exact %s.read_write t hok rest\n\n", e.typ)
+			}
+			rgl = append(rgl, fmt.Sprintf("(%q, %d, %d)", e.typ, e.key, k))
+		}
+	}
+	fmt.Fprintf(&gb, "/-- (type, api key, version) of every response type covered by `legacy_read_spec` -/\ndef goldenReadCovered : List (String × Nat × Nat) := [%s]\n", strings.Join(rgl, ", "))
+	fmt.Fprintf(&gb, "/-- response types seen next to a writeRequest call whose schema or reader is not translated -/\ndef goldenReadSkipped : List String := [%s]\n\n", strings.Join(uniq(rskip), ", "))
 	for _, wi := range c.writerInfo {
 		name, key, ver := wi[0], wi[1], wi[2]
 		hyp, rw := "", ""
@@ -1505,6 +1564,7 @@ func (e *lgEnv) schemaStmt(st ast.Stmt) tv {
 					if e.c.versioned[id.Name] {
 						bad("nested versioned type %s", id.Name)
 					}
+					e.t.nested = true
 					return one(id.Name+".tyC", "("+id.Name+".val "+e.expr(sel.X)+")")
 				}
 			}
